@@ -33,7 +33,7 @@ structure Inv (reqs : List Req) (s : St) : Prop where
   qok : ∀ q ∈ s.queue, reqOf reqs q.1 = some q.2
   cok : ∀ k, s.latest = some k → reqOf reqs k = some s.cur
   hok : ∀ h, s.redirects.head? = some h → ∀ k, h.tag = some k → ∃ r, reqOf reqs k = some r ∧ r.path = h.path
-  eok : ∀ e ∈ s.entries, (∀ k, e.tag = some k → reqOf reqs k = some ⟨e.method, e.path, e.rbody⟩) ∧
+  eok : ∀ e ∈ s.entries, (∀ k, e.tag = some k → reqOf reqs k = some ⟨e.method, e.path, e.rbody, e.rqargs⟩) ∧
     (∀ h, e.redirects.head? = some h → ∀ k, h.tag = some k → ∃ r, reqOf reqs k = some r ∧ r.path = h.path)
 
 /-- `transmit` touches neither the ledger's parts nor the history -/
@@ -67,7 +67,7 @@ theorem inv_transmit (reqs : List Req) (servers : List Server) (t : St) (r : Req
     (he : ∀ e ∈ t.entries, (∀ h ∈ e.redirects, isRedirect h.status = true) ∧ (e.errored = false → ∃ st, e.status = some st ∧ isRedirect st = false))
     (hq : ∀ q ∈ t.queue, reqOf reqs q.1 = some q.2) (hc : ∀ k, t.latest = some k → reqOf reqs k = some r)
     (hho : ∀ h, t.redirects.head? = some h → ∀ k, h.tag = some k → ∃ r, reqOf reqs k = some r ∧ r.path = h.path)
-    (heo : ∀ e ∈ t.entries, (∀ k, e.tag = some k → reqOf reqs k = some ⟨e.method, e.path, e.rbody⟩) ∧
+    (heo : ∀ e ∈ t.entries, (∀ k, e.tag = some k → reqOf reqs k = some ⟨e.method, e.path, e.rbody, e.rqargs⟩) ∧
       (∀ h, e.redirects.head? = some h → ∀ k, h.tag = some k → ∃ r, reqOf reqs k = some r ∧ r.path = h.path)) :
     Inv reqs (transmit servers t r) := by
   obtain ⟨f1, f2, f3, f4, f5, _, _, f8⟩ := transmit_fields servers t r
@@ -120,7 +120,7 @@ theorem inv_congr (reqs : List Req) (s t : St) (h : Inv reqs s)
   rw [e2, e5, e6, e7, e8]; exact this
 
 /-- the response in process is taken off the wire -/
-theorem inv_consume (reqs : List Req) (s : St) (rp : Resp) (al : Bool) (h : Inv reqs s) (hw : s.waited = true) (hp : s.pending = some rp) :
+theorem inv_consume (reqs : List Req) (s : St) (rp : Resp) (al : Bool) (h : Inv reqs s) (hw : s.waited = true) (hp : s.pending.isSome = true) :
     Inv reqs { s with inflight := s.inflight - 1, pending := none, alive := al } := by
   have hfl : s.inflight = 1 := by rw [h.flight]; simp [hw, hp]
   refine ⟨by simp [hfl], h.peak, ?_, h.idle, h.hist, h.ents, h.qok, h.cok, h.hok, h.eok⟩
@@ -212,7 +212,7 @@ theorem inv_transmit_waiting (reqs : List Req) (servers : List Server) (t : St) 
   simpa [ledger, hw] using this
 
 theorem inv_handle (reqs : List Req) (servers : List Server) (s : St) (rp : Resp) (h : Inv reqs s)
-    (hw : s.waited = true) (hp : s.pending = some rp) : Inv reqs (handle servers s rp) := by
+    (hw : s.waited = true) (hp : s.pending.isSome = true) : Inv reqs (handle servers s rp) := by
   unfold handle
   simp only []
   have h0 := inv_consume reqs s rp (s.alive && !(rp.close || rp.framing == 2 || rp.framing == 3)) h hw hp
@@ -249,15 +249,24 @@ theorem inv_serviceResponse (reqs : List Req) (servers : List Server) (arrived :
     · rename_i hp
       exact inv_finish reqs s none [] true h hw hp (fun hc => absurd hc (by decide))
     · rename_i rp hp
+      have hps : s.pending.isSome = true := by rw [hp]; rfl
       split
       · exact h
       · split
         · split
           · split
-            · exact inv_handle reqs servers s rp h hw hp
-            · exact inv_finish reqs _ none [] true (inv_consume reqs s rp false h hw hp) hw rfl (fun hc => absurd hc (by decide))
-          · exact inv_outcome reqs s .stuck h
-        · exact inv_handle reqs servers s rp h hw hp
+            · split
+              · exact inv_handle reqs servers s _ h hw hps
+              · exact inv_finish reqs _ none [] true (inv_consume reqs s rp false h hw hps) hw rfl (fun hc => absurd hc (by decide))
+            · exact inv_outcome reqs s .stuck h
+          · exact inv_handle reqs servers s _ h hw hps
+        · split
+          · split
+            · split
+              · exact inv_handle reqs servers s rp h hw hps
+              · exact inv_finish reqs _ none [] true (inv_consume reqs s rp false h hw hps) hw rfl (fun hc => absurd hc (by decide))
+            · exact inv_outcome reqs s .stuck h
+          · exact inv_handle reqs servers s rp h hw hps
   · rw [if_pos (by simp [hw])]
     exact h
 
@@ -308,7 +317,7 @@ theorem sec_transmit (w0 : List Sent) (servers : List Server) (s : St) (r : Req)
   unfold transmit
   split
   · split
-    · refine ⟨hs, added ++ [⟨s.port, s.secure, r.method, r.path, if r.method == lit "GET" then [] else r.body⟩], ?_, ?_⟩
+    · refine ⟨hs, added ++ [⟨s.port, s.secure, r.method, targetOf r.path r.qargs, if r.method == lit "GET" then [] else r.body⟩], ?_, ?_⟩
       · simp [hw]
       · intro w hw'
         rcases List.mem_append.mp hw' with hw' | hw'
@@ -360,10 +369,18 @@ theorem sec_serviceResponse (w0 : List Sent) (servers : List Server) (arrived : 
       · split
         · split
           · split
-            · exact sec_handle w0 servers s _ h
+            · split
+              · exact sec_handle w0 servers s _ h
+              · exact sec_congr w0 s _ h rfl rfl
             · exact sec_congr w0 s _ h rfl rfl
-          · exact sec_congr w0 s _ h rfl rfl
-        · exact sec_handle w0 servers s _ h
+          · exact sec_handle w0 servers s _ h
+        · split
+          · split
+            · split
+              · exact sec_handle w0 servers s _ h
+              · exact sec_congr w0 s _ h rfl rfl
+            · exact sec_congr w0 s _ h rfl rfl
+          · exact sec_handle w0 servers s _ h
 
 theorem sec_cycle (w0 : List Sent) (servers : List Server) (arrived : Bool) (s : St) (h : SecRel w0 s) :
     SecRel w0 (cycle servers arrived s) := by
